@@ -6,7 +6,7 @@ namespace Driver.Watch
 def fsOfName (n : String) : Option FsOp :=
   match n with
   | "writeInPlace" | "writeViaTemp" | "rewrite" | "unlink" | "renameAway" | "writeBad" => some .writeSpec
-  | "moveIn" | "linkIn" | "creatEmpty" | "moveInOld" | "linkInOld" | "replaceKeepStat" => some .moveIn
+  | "moveIn" | "linkIn" | "creatEmpty" | "moveInOld" | "linkInOld" | "replaceKeepStat" | "symlinkIn" | "retarget" => some .moveIn
   | "tempFile" => some .tempFile
   | "rmdir" => some .rmdir
   | "mkdir" => some .mkdir
@@ -104,6 +104,14 @@ def handle : Handler := fun j => do
     let judge : Option String := if p then some "panic"
       else if converged then none else some "file-created-during-cache-construction-never-noticed"
     pure (verdict converged judge (Json.bool true) ["created-during-construction"])
+  | "overflow" =>
+    -- events were lost (queue overflow): the kernel leaves a marker, on which the watcher re-establishes its
+    -- watches and rescans (the machine's `drop` step and `.lost` event); the file written meanwhile must show up
+    let converged ← getBool obs "converged"
+    let p ← getBool obs "panic"
+    let judge : Option String := if p then some "panic"
+      else if converged then none else some "file-written-while-events-were-lost-never-noticed"
+    pure (verdict converged judge (Json.bool true) ["event-queue-overflow"])
   | "slowscan" =>
     -- the watcher's update+scan and a query's update+scan are serialised by the cache mutex (the machine's steps
     -- are atomic): a query that falls into a slow scan of the watcher runs after it, and its result stands
